@@ -14,6 +14,12 @@ import (
 // G4: lock / guarded-access summary of the methods of *Message (message.go) and *Composite
 // (field/composite.go), purely syntactic (go/ast).
 
+type callSite struct {
+	name   string
+	pos    token.Pos
+	inLoop bool
+}
+
 type lockMeth struct {
 	name     string
 	recv     string
@@ -22,6 +28,7 @@ type lockMeth struct {
 	calls    map[string]bool
 	exported bool
 	spawns   bool // contains a go statement or a function literal that touches guarded state
+	sites    []callSite
 }
 
 func astString(n ast.Node) string {
@@ -92,6 +99,7 @@ func lockSummary(dir, typ string, guarded map[string]bool) (map[string]*lockMeth
 				}
 				// any other use of the mutex (explicit Unlock, a second Lock) breaks the pattern
 				muUses := 0
+				var loops [][2]token.Pos
 				ast.Inspect(fd.Body, func(n ast.Node) bool {
 					switch x := n.(type) {
 					case *ast.SelectorExpr:
@@ -103,10 +111,15 @@ func lockSummary(dir, typ string, guarded map[string]bool) (map[string]*lockMeth
 								m.direct[x.Sel.Name] = true
 							}
 						}
+					case *ast.ForStmt:
+						loops = append(loops, [2]token.Pos{x.Body.Pos(), x.Body.End()})
+					case *ast.RangeStmt:
+						loops = append(loops, [2]token.Pos{x.Body.Pos(), x.Body.End()})
 					case *ast.CallExpr:
 						if se, ok := x.Fun.(*ast.SelectorExpr); ok {
 							if id, ok := se.X.(*ast.Ident); ok && id.Name == recv {
 								m.calls[se.Sel.Name] = true
+								m.sites = append(m.sites, callSite{se.Sel.Name, x.Pos(), false})
 							}
 						}
 					case *ast.GoStmt:
@@ -114,6 +127,13 @@ func lockSummary(dir, typ string, guarded map[string]bool) (map[string]*lockMeth
 					}
 					return true
 				})
+				for i := range m.sites {
+					for _, l := range loops {
+						if m.sites[i].pos >= l[0] && m.sites[i].pos < l[1] {
+							m.sites[i].inLoop = true
+						}
+					}
+				}
 				if m.locks && muUses != 2 {
 					m.locks = false
 				}
@@ -199,6 +219,34 @@ func genLocksFor(name, dir, typ string, guarded []string) string {
 			}
 		}
 		walk(m)
+		// critical sections one invocation may enter: 1 for a method that locks its whole body, otherwise the calls to
+		// locking methods (a call inside a loop counts as two = many), through non-locking helpers
+		var sections func(x *lockMeth, depth int) int
+		sections = func(x *lockMeth, depth int) int {
+			if x.locks {
+				return 1
+			}
+			if depth > 6 {
+				return 2
+			}
+			total := 0
+			for _, cs := range x.sites {
+				cm, ok := ms[cs.name]
+				if !ok {
+					continue
+				}
+				k := sections(cm, depth+1)
+				if cs.inLoop && k > 0 {
+					k = 2
+				}
+				total += k
+			}
+			if total > 2 {
+				total = 2
+			}
+			return total
+		}
+		nsec := sections(m, 0)
 		var as []string
 		for a := range acc {
 			as = append(as, a)
@@ -211,8 +259,8 @@ func genLocksFor(name, dir, typ string, guarded []string) string {
 			}
 			return "false"
 		}
-		rows = append(rows, fmt.Sprintf("   {| lm_name := %q; lm_exported := %s; lm_locks := %s; lm_touches := %s; lm_calls_locking := %s; lm_spawns := %s |}",
-			n, b(m.exported), b(m.locks), coqStrList(as), coqStrList(lockingCalls), b(m.spawns)))
+		rows = append(rows, fmt.Sprintf("   {| lm_name := %q; lm_exported := %s; lm_locks := %s; lm_touches := %s; lm_calls_locking := %s; lm_spawns := %s; lm_sections := %d |}",
+			n, b(m.exported), b(m.locks), coqStrList(as), coqStrList(lockingCalls), b(m.spawns), nsec))
 	}
 	sort.Strings(foreign)
 	return fmt.Sprintf("Definition %s_methods : list lock_summary :=\n  [\n%s\n  ].\nDefinition %s_foreign_accesses : list string := %s.\n", name, strings.Join(rows, ";\n"), name, coqStrList(foreign))
@@ -223,9 +271,10 @@ func init() {
 		return "(* GENERATED by harness translate (go/ast) from /repo/message.go and /repo/field/composite.go: do not edit.\n" +
 			"   lm_locks: the body starts with mu.Lock(); defer mu.Unlock() and uses the mutex nowhere else;\n" +
 			"   lm_touches: guarded fields reached directly or through non-locking methods of the same receiver;\n" +
-			"   lm_calls_locking: locking methods called on the same receiver (a self-deadlock with sync.Mutex). *)\n" +
+			"   lm_calls_locking: locking methods called on the same receiver (a self-deadlock with sync.Mutex);\n" +
+			"   lm_sections: critical sections one invocation may enter (2 = more than one: the operation is not atomic). *)\n" +
 			"From Coq Require Import List Strings.String.\nImport ListNotations.\nOpen Scope string_scope.\n\n" +
-			"Record lock_summary : Type := { lm_name : string; lm_exported : bool; lm_locks : bool; lm_touches : list string; lm_calls_locking : list string; lm_spawns : bool }.\n\n" +
+			"Record lock_summary : Type := { lm_name : string; lm_exported : bool; lm_locks : bool; lm_touches : list string; lm_calls_locking : list string; lm_spawns : bool; lm_sections : nat }.\n\n" +
 			genLocksFor("message", "/repo", "Message", []string{"fields", "fieldsMap", "cachedBitmap"}) + "\n" +
 			genLocksFor("composite", "/repo/field", "Composite", []string{"subfields", "setSubfields", "cachedBitmap"})
 	}
